@@ -293,6 +293,15 @@ def run(ctx):
                                dict(zone="P1", name="H", t_supply=258.5, t_target=177.0, heat_flow=101.875, dt_cont=5.0, htc=2.0)],
                       utilities=[dict(name="TopU", type="Both", t_supply=302.5, t_target=302.5, heat_flow=0.0, dt_cont=10.0, htc=1.0, price=30.0)]),
                  dict(translate_d=-300.0, only=["translate"])))
+    # two cold utilities whose glides nest (cooling water 12 -> 36, tempered water 20 -> 26): the ladder must be ranked the same way as its mirror image
+    base.append((dict(streams=[dict(zone="Plant", name="H1", t_supply=160.0, t_target=40.0, heat_flow=2400.0, dt_cont=5.0, htc=1.0),
+                               dict(zone="Plant", name="H2", t_supply=120.0, t_target=45.0, heat_flow=1500.0, dt_cont=5.0, htc=1.0),
+                               dict(zone="Plant", name="C1", t_supply=60.0, t_target=140.0, heat_flow=1600.0, dt_cont=5.0, htc=1.0),
+                               dict(zone="Plant", name="C2", t_supply=90.0, t_target=130.0, heat_flow=1200.0, dt_cont=5.0, htc=1.0)],
+                      utilities=[dict(name="HP", type="Hot", t_supply=200.0, t_target=199.0, heat_flow=0.0, dt_cont=5.0, htc=1.0, price=30.0),
+                                 dict(name="CW", type="Cold", t_supply=12.0, t_target=36.0, heat_flow=0.0, dt_cont=5.0, htc=1.0, price=2.0),
+                                 dict(name="TW", type="Cold", t_supply=20.0, t_target=26.0, heat_flow=0.0, dt_cont=5.0, htc=1.0, price=3.0)]),
+                 dict(only=["mirror", "translate", "permute"])))
     # regression of a corrected false alarm (DESIGN 12.3 item 12): a 0.000125 K wide stream (CP 40000) translated by an off-lattice amount
     base.append((dict(streams=[dict(zone="P0", name="S0_0", t_supply=195.0, t_target=55.0, heat_flow=105.0, dt_cont=5.0, htc=0.5),
                                dict(zone="P0", name="N1_0", t_supply=60.0, t_target=190.0, heat_flow=260.0, dt_cont=5.0, htc=1.0),
